@@ -22,7 +22,8 @@ RULE = ("Operation trees as in C15 with only/exclude/without_extras applied to c
         "the variables the operand mentions 80% of the time; all subsets of mentioned variables when <=4), incl. "
         "the nested/factored shapes of the small-scope strata. Every call of the three methods on any class (also "
         "the recursive ones) is one monitored event. Non-trivial/distinct: (marker, subset) with a compound marker "
-        "and a proper non-empty subset of its variables.")
+        "and a proper non-empty subset of its variables."
+        " Size strata: order twins behind self-combined ballast, compounds with 33-70 children, heavy term products.")
 ASSUMPTIONS = [
     "implication / equivalence are decided by evaluate() on sampled critical environments",
     "nothing is demanded of exclude() on a mentioned variable beyond non-mention (statement)",
